@@ -117,6 +117,13 @@ def run_cxx_dlist(rep, mod):
               lambda r: dict(rings=seq_insert_after(seq_remove(r, 'x'), 'x', 'a0')), extra_cells=['h0'])
         R.run(B + '::move_prev', M(B, 'move_prev'), arg_ptrs('h0', 'x', 'a0'), cfg,
               lambda r: dict(rings=seq_insert_before(seq_remove(r, 'x'), 'x', 'a0')), extra_cells=['h0'])
+    # a node moved next to ITSELF (the property's histories include it): remove + insert next to a node that is no longer in
+    # the list leaves the node detached and self-linked and every ring well-formed
+    for ring in gen_rings('x', ['x'], ['a', 'b', 'c']):
+        R.run(N + '::move_prev_than(self)', M(N, 'move_prev_than'), arg_ptrs('x', 'x'), [ring],
+              lambda r: dict(rings=seq_remove(r, 'x'), self=['x']))
+        R.run(N + '::move_next_than(self)', M(N, 'move_next_than'), arg_ptrs('x', 'x'), [ring],
+              lambda r: dict(rings=seq_remove(r, 'x'), self=['x']))
     for cfg in same_ring_cfgs('h', 'x') + two_ring_cfgs('h', 'x'):
         R.run(B + '::move_front', M(B, 'move_front'), arg_ptrs('h', 'x'), cfg,
               lambda r: dict(rings=seq_insert_after(seq_remove(r, 'x'), 'x', 'h')))
@@ -511,7 +518,7 @@ def run(rep, repo, tier):
         'footprint is reported. Traversal macros/iterators are checked to advance through exactly next (forward) / prev '
         '(reverse) and to stop at the head. Equality with a reference list over whole histories follows from these '
         'per-operation verdicts by the frame argument, which is not mechanised.')
-    rep.assumptions += ['a node is never used as its own insertion anchor (x.move_next_than(x))',
+    rep.assumptions += ['moving a C++ node next to itself is defined as remove + insert (the node ends detached); a C node is never its own anchor',
                         'dlist_add_* is applied to a node that is not linked (C API contract)',
                         'destructor/clear loops analysed on explicit rings of up to 3 elements']
     modc = witness('w_lists.c', repo)
